@@ -9,6 +9,7 @@
   A primitive may also refuse at the length budget; then it only marks the buffer unsuccessful.
 -/
 import RbModel.Lemmas.BufZipper
+import RbModel.Lemmas.GsubFill
 import RbModel.Lemmas.GsubSingleSpec
 import RbModel.Lemmas.GsubAlternateSpec
 import RbModel.Lemmas.GsubMultiSpec
@@ -1028,5 +1029,31 @@ example : (match applyString exMixLigCtx exMixLigLookup 5 with
     | .error _ => false) = true := by decide
 example : (applyLookupFwd exLigFont 0 exMixLigLookup 8 5 ((exMixLigCtx.buf.info.take 5).map toG) 0).map (fun g => (g.gid, g.cluster))
     = [(21, 0), (11, 2), (13, 3), (30, 4)] := by decide
+
+/-! ## Part 6 — match-position bookkeeping of `apply_lookup` after a growing nested lookup
+
+  `apply_lookup` keeps `match_positions` in step with the buffer while it runs the records of a contextual rule.  After a
+  nested lookup at sequence index `s` made the string longer by `delta`, the glyphs it added become sequence positions of
+  their own: `s + 1 + i ↦ positions[s] + 1 + i`.  This is the rule the specification model states (`Spec.Subst.applyRecords`);
+  the theorems say the operational loop ("Fill in new entries") computes exactly that for every position list, start and growth
+  (seeded change C06e — every added glyph recorded at `positions[s] + 1` — breaks them through the gsub-interp correspondence). -/
+
+theorem C06_fill_consecutive (positions : List Nat) (s delta p : Nat) (hp : positions[s]? = some p)
+    (hlen : s + 1 + delta ≤ positions.length) :
+    ∃ l', applyLookup.loop.fill ((s + 1 + delta : Nat) : Int) positions (s + 1) (s + 1 + delta + 1) = .ok l' ∧
+      l'.length = positions.length ∧
+      (∀ i, i < delta → l'[s + 1 + i]? = some (p + 1 + i)) ∧
+      (∀ k, (k ≤ s ∨ s + 1 + delta ≤ k) → l'[k]? = positions[k]?) :=
+  fill_consecutive positions s delta p hp hlen
+
+theorem C06_fill_is_spec_rule (positions : List Nat) (s delta p : Nat) (hp : positions[s]? = some p)
+    (hlen : s + 1 + delta ≤ positions.length) :
+    applyLookup.loop.fill ((s + 1 + delta : Nat) : Int) positions (s + 1) (s + 1 + delta + 1) =
+      .ok (positions.take (s + 1) ++ (List.range delta).map (fun i => p + 1 + i) ++ positions.drop (s + 1 + delta)) :=
+  fill_closed_form positions s delta p hp hlen
+
+-- non-vacuity: a 1 → 4 expansion at sequence index 0 (buffer position 7): the three added glyphs sit at 8, 9, 10
+example : applyLookup.loop.fill ((0 + 1 + 3 : Nat) : Int) [7, 0, 0, 0, 12, 13] (0 + 1) (0 + 1 + 3 + 1) = .ok [7, 8, 9, 10, 12, 13] := by
+  rfl
 
 end RbModel.Gsub
